@@ -151,6 +151,41 @@ def rand_compat_pair(rng, maxrank=4, maxsize=4):
 
 # ---------------------------------------------------------------- family: construct (C16)
 
+def fam_special(rng, n, tier, mode="float"):
+    """C16 on the values where `==` is not `bitwise equal`: infinities, signed zeros, NaN, extreme magnitudes.
+    Construction, row-major reading, equality with a copy / a clone / a reshaped-back view / an array differing
+    in one place, whatever the tracking state.  No arithmetic happens, so non-finite values are in scope."""
+    cases = []
+    inf, nan = float("inf"), float("nan")
+    specials = [inf, -inf, 0.0, -0.0, 1.0, -1.0, 1.7976931348623157e308, 5e-324, 2.2250738585072014e-308, nan]
+    if mode == "f32":
+        specials = [inf, -inf, 0.0, -0.0, 1.0, -1.0, 3.4028234663852886e38, 1.401298464324817e-45, nan]
+    rows = []
+    for v in specials:
+        rows.append([v, 1.0, 2.0, 3.0])
+        rows.append([1.0, 2.0, 3.0, v])
+    rows += [[inf, -inf, inf, -inf], [0.0, -0.0, 0.0, -0.0], [inf, 0.0, -0.0, -inf]]
+    for row in rows:
+        for dims in ([4], [2, 2]):
+            L = ["new a %s %s" % (dims_s(dims), vals_s(row, mode)), "new b %s %s" % (dims_s(dims), vals_s(row, mode)),
+                 "eq a b", "eq b a", "eq a a", "clone c a", "eq a c", "tracked c", "eq a c", "eq c b"]
+            for i in range(4):
+                L.append("idxflat a %d" % i)
+            other = dims_s([2, 2] if dims == [4] else [4])
+            L += ["reshape v a %s" % other, "reshape w v %s" % dims_s(dims), "eq a w", "eq a v"]
+            for i in range(4):
+                d = list(row)
+                d[i] = 7.0 if d[i] != 7.0 else 8.0
+                L += ["new d%d %s %s" % (i, dims_s(dims), vals_s(d, mode)), "eq a d%d" % i, "eq d%d a" % i]
+            # opposite infinities / zeros of the other sign at one place
+            for i in range(4):
+                if row[i] in (inf, -inf):
+                    d = list(row); d[i] = -row[i]
+                    L += ["new e%d %s %s" % (i, dims_s(dims), vals_s(d, mode)), "eq a e%d" % i]
+            cases.append(Case(L, ("special", tuple(repr(x) for x in row), tuple(dims)), ["special-values"], mode))
+    return cases
+
+
 def fam_construct(rng, n, tier):
     cases = []
     shapes = all_shapes(4, 3) if tier == "thorough" else all_shapes(3, 3) + [s for s in all_shapes(4, 2)]
@@ -506,6 +541,42 @@ def fam_conv(rng, n, tier, mode="exact", grads=False):
     return cases
 
 
+def fam_conv_large(rng, n, tier, mode="exact"):
+    """C06 at sizes where evaluating the whole model is out of reach: the implementation computes the whole
+    convolution, single output elements (corners and random positions of every image / filter) are compared
+    with the sliding-window element `convElem` - proved equal to indexing the model's `conv` (C06_convat).
+    Unrolled sizes per image from 2^10 to beyond 2^20, unequal strides, non-square images and filters,
+    untracked and tracked operands."""
+    cases = []
+    #          batch depth rows cols count fr fc sr sc
+    configs = [([], 1, 18, 21, 2, 3, 2, 1, 2), ([2], 2, 30, 26, 2, 3, 3, 2, 1), ([], 3, 64, 60, 4, 3, 3, 1, 2),
+               ([2], 1, 130, 120, 1, 2, 2, 2, 1), ([], 4, 70, 90, 2, 4, 5, 1, 3), ([2], 6, 130, 132, 3, 5, 5, 1, 2),
+               ([], 6, 132, 130, 2, 5, 5, 2, 1)]
+    if tier == "thorough":
+        configs += [([3], 6, 140, 150, 2, 5, 5, 1, 2), ([], 8, 200, 180, 2, 5, 4, 2, 3)]
+    for (batch, depth, rows, cols, count, fr, fc, sr, sc_) in configs:
+        orows, ocols = (rows - fr) // sr + 1, (cols - fc) // sc_ + 1
+        unrolled = orows * ocols * depth * fr * fc
+        for trk in ((False, True) if unrolled < 300000 else (False,)):
+            idims = batch + [depth, rows, cols]
+            L = ["new x %s %s" % (dims_s(idims), vals_s([rng.randint(-2, 2) for _ in range(prod(idims))], mode)),
+                 "new f %s %s" % (dims_s([count, depth, fr, fc]), vals_s([rng.randint(-2, 2) for _ in range(count * depth * fr * fc)], mode))]
+            if trk:
+                L += ["tracked x", "tracked f"]
+            picks = set()
+            for b in itertools.product(*[range(d) for d in batch]):
+                for (y, x_) in ((0, 0), (orows - 1, ocols - 1), (0, ocols - 1), (orows - 1, 0)):
+                    picks.add(tuple(b) + (rng.randrange(count), y, x_))
+            while len(picks) < 4 * max(1, prod(batch)) + 6:
+                picks.add(tuple(rng.randrange(d) for d in batch) + (rng.randrange(count), rng.randrange(orows), rng.randrange(ocols)))
+            for pk in sorted(picks):
+                L.append("convat x f %d %d %s" % (sr, sc_, dims_s(pk)))
+            cases.append(Case(L, ("cvlarge", tuple(idims), count, fr, fc, sr, sc_, trk), ["large", "unrolled>=2^%d" % (unrolled.bit_length() - 1)], mode))
+    return cases
+
+
+FAMILIES_LATE = {"conv_large": fam_conv_large}
+
 # ---------------------------------------------------------------- family: reduce-map (C07)
 
 MAPS_EXACT = ["neg", "relu"]
@@ -677,13 +748,17 @@ class Prog:
         a = a or self.pick()
         b = b or (a if rng.random() < 0.15 else self.pick_compat(a))
         exact_div = self.mode == "exact"
-        ops = ["add", "sub", "mul"] + ([] if exact_div else ["div"])
+        ops = ["add", "sub", "mul", "axpy"] + ([] if exact_div else ["div"])
         op = op or rng.choice(ops)
         if op == "div":
             # keep the float channel in-domain: divide by a fresh array bounded away from zero
             b = self.new_leaf(self.shape[b], kind="pos")
         r = res or self.fresh()
-        self.emit("%s %s %s %s" % (op, r, a, b))
+        if op == "axpy":
+            alpha = rng.choice([2, -1, 3, -2]) if self.mode == "exact" else rng.choice([0.5, -1.5, 2.0])
+            self.emit("axpy %s %s %s %s" % (r, sc(alpha, self.mode), a, b))
+        else:
+            self.emit("%s %s %s %s" % (op, r, a, b))
         self.shape[r] = compat(self.shape[a], self.shape[b])
         self.tr[r] = self.tr[a] or self.tr[b]
         self.leaf.discard(r)
@@ -1200,6 +1275,27 @@ def fam_optim(rng, n, tier, mode="exact", frompass=True):
                 L.append("probe %s" % nm)
         cases.append(Case(L, ("opt", k, mask, tuple(map(tuple, shapes))), ["k%d" % k, "frozen%d" % (k - sum(mask))], mode,
                           nontrivial=(k >= 2 and 0 < sum(mask))))
+    # one optimizer object stepping different parameter lists of the same sizes in turn (it keeps nothing
+    # about the parameters it has seen)
+    for k in (1, 2, 3):
+        for sameshape in (True, False):
+            L = []
+            shapes = [rand_shape(rng, 2, 3) for _ in range(k)]
+            lr = Fraction(1, 2) if mode == "exact" else 0.25
+            L.append("gd G %s" % sc(lr, mode))
+            for rnd in range(3):
+                for which in ("p", "q"):
+                    names = ["%s%d" % (which, i) for i in range(k)]
+                    for nm, sh in zip(names, shapes):
+                        sh2 = sh if (sameshape or which == "p") else [prod(sh)]
+                        if rnd == 0:
+                            L.append("new %s %s %s" % (nm, dims_s(sh2), vals_s(gen_vals(rng, prod(sh2), mode), mode)))
+                            L.append("tracked %s" % nm)
+                        L.append("new g%s%d %s %s" % (nm, rnd, dims_s(sh2), vals_s(gen_vals(rng, prod(sh2), mode), mode)))
+                        L.append("setgrad %s g%s%d" % (nm, nm, rnd))
+                    L.append("gdstep G %s" % ",".join(names))
+                    L.append("snapshot")
+            cases.append(Case(L, ("optshared", k, sameshape, tuple(map(tuple, shapes))), ["shared-optimizer"], mode))
     # gradients that come from real passes
     for _ in range(n // 2 if frompass else 0):
         p = Prog(rng, mode)
@@ -1299,12 +1395,18 @@ def fam_train(rng, n, tier, mode="exact", forward_only=False):
                     ydims = ([] if nb is None else [nb]) + base_y[-3:]
                 if mode == "exact" and (prod(ydims) & (prod(ydims) - 1)):
                     xdims, ydims = list(base_x), list(base_y)
+            tdims = list(ydims)
+            if kind == "dense" and it > 0 and rng.random() < 0.3 and not (mode == "exact" and (sizes[-1] & (sizes[-1] - 1))):
+                # one input row scored against several target rows: the cost array (and so the seed of the pass)
+                # has the target's shape, not the output's, although the output's shape is the one seen before
+                xdims, ydims = [1, sizes[0]], [1, sizes[-1]]
+                tdims = [rng.choice([2, 4]), sizes[-1]]
             xv = gen_vals(rng, prod(xdims), mode) if mode == "exact" else floats(rng, prod(xdims), -1, 1)
             if mode == "exact":
                 xv = [max(-2, min(2, v)) for v in xv]
             L.append("new x%d %s %s" % (it, dims_s(xdims), vals_s(xv, mode)))
-            yv = gen_vals(rng, prod(ydims), mode) if mode == "exact" else posfloats(rng, prod(ydims), 0.0, 1.0)
-            L.append("new y%d %s %s" % (it, dims_s(ydims), vals_s(yv, mode)))
+            yv = gen_vals(rng, prod(tdims), mode) if mode == "exact" else posfloats(rng, prod(tdims), 0.0, 1.0)
+            L.append("new y%d %s %s" % (it, dims_s(tdims), vals_s(yv, mode)))
             xtracked = rng.random() < 0.35
             if xtracked:
                 # the input batch may itself be tracked (a leaf, or the output of another model)
@@ -1618,13 +1720,19 @@ def fam_flags(rng, n, tier, mode="exact"):
         return how in ("tracked", "start")
 
     hows = ["plain", "tracked", "start", "tracked-stop", "untracked", "clone-tracked"]
-    for op in binops:
+    for op in binops + ["axpy"]:
+      for (da, db) in (([2, 2], [2]), ([2, 2], [2, 2]), ([2], [2, 2]), ([1, 2], [2, 1])):
         for ha in hows:
             for hb in hows:
+                if (da, db) != ([2, 2], [2]) and not (ha in ("plain", "tracked", "untracked") and hb in ("plain", "tracked", "start")):
+                    continue
                 L = []
-                ta = leaf(L, "a", [2, 2], ha)
-                tb = leaf(L, "b", [2], hb)
-                L.append("%s r a b" % op)
+                ta = leaf(L, "a", da, ha)
+                tb = leaf(L, "b", db, hb)
+                if op == "axpy":
+                    L.append("axpy r %s a b" % sc(3, mode))
+                else:
+                    L.append("%s r a b" % op)
                 L += ["probekid r 0", "probekid r 1", "probe r"]
                 if not (ta or tb):
                     # an untracked result keeps no reference to its operands
@@ -1633,7 +1741,50 @@ def fam_flags(rng, n, tier, mode="exact"):
                     L += ["backward r -", "grad a", "grad b", "grad r", "probekid r 0", "probekid r 1",
                           "start a", "stop a" if not ta else "start a", "stop b", "start b" if tb else "stop b",
                           "backward r -", "grad a", "grad b"]
-                cases.append(Case(L, ("fl2", op, ha, hb), [op, "flags"], mode, nontrivial=(ha != hb)))
+                cases.append(Case(L, ("fl2", op, ha, hb, tuple(da), tuple(db)), [op, "flags"], mode, nontrivial=(ha != hb)))
+    # conv: image / filters tracked in every combination
+    for fi in (0, 1):
+        for ff in (0, 1):
+            L = []
+            leaf(L, "img", [1, 3, 3], "tracked" if fi else "plain")
+            leaf(L, "flt", [2, 1, 2, 2], "tracked" if ff else "plain")
+            L += ["conv r img flt 1 1", "probe r"]
+            if fi or ff:
+                L += ["backward r -", "grad img", "grad flt"]
+            else:
+                L += ["own img", "own flt"]
+            cases.append(Case(L, ("flconv", fi, ff), ["conv", "flags"], mode, nontrivial=(fi != ff)))
+    # a view taken of a tracked array, detached, and viewed again (back to the source's dimensions, or not):
+    # the second view is untracked and nothing flows through it
+    for first in ("reshape 4", "reshape 1,4", "reshape 2,2", "sum0"):
+        for detach in ("untracked", "stop", "clone-untracked", "none"):
+            for second in ("reshape 2,2", "reshape 4", "reshape 4,1", "sum0", "neg"):
+                L = []
+                leaf(L, "a", [2, 2], "tracked")
+                L.append("sum v a 0" if first == "sum0" else "reshape v a %s" % first.split()[1])
+                w = "v"
+                if detach == "untracked":
+                    L.append("untracked v")
+                elif detach == "stop":
+                    L.append("stop v")
+                elif detach == "clone-untracked":
+                    L += ["clone vc v", "untracked vc"]
+                    w = "vc"
+                if second == "sum0":
+                    L.append("sum w %s 0" % w)
+                elif second == "neg":
+                    L.append("neg w %s" % w)
+                else:
+                    L.append("reshape w %s %s" % (w, second.split()[1]))
+                L += ["flags w", "probe w", "flags v", "flags a"]
+                if detach == "none":
+                    L += ["backward w -", "grad a"]
+                else:
+                    # a result that must be untracked: differentiating something built on it leaves `a` alone
+                    L += ["new k 2,2 %s" % vals_s(gen_vals(rng, 4, mode, "pos"), mode), "tracked k"]
+                    L.append("reshape w2 w 2,2")
+                    L += ["mul z w2 k", "backward z -", "grad a", "grad k"]
+                cases.append(Case(L, ("flview", first, detach, second), ["view-roundtrip", "flags"], mode, nontrivial=(detach != "none")))
     for op in unops:
         for ha in hows:
             L = []
@@ -2015,7 +2166,7 @@ def fam_cost(rng, n, tier, mode="exact"):
 
 FAMILIES.update({"selfviews": fam_selfviews, "cost": fam_cost})
 
-def fam_scalar_edges(rng, n, tier, mode="float"):
+def fam_scalar_edges(rng, n, tier, mode="float", part="all"):
     """every scalar function at the edges of its range: magnitudes 1e-30 .. 1e30, forward value and
     gradient, one or two elements per case (a non-finite result ends a case, so cases are tiny).  A
     clamp, an epsilon or a cast that differs between the scalar types shows here first."""
@@ -2055,16 +2206,31 @@ def fam_scalar_edges(rng, n, tier, mode="float"):
             L = ["new z 2,2 %s" % vals_s(row + [1.0, 2.0], mode), "tracked z", "softmax p z",
                  "new t 2,2 %s" % vals_s(tgt + [0.0, 1.0], mode), "cost e xent p t", "backward e -", "grad z"]
             cases.append(Case(L, ("edgesm", gap, bigfirst), ["softmax", "xent", "edge"], mode))
-    # costs on probabilities close to 0 and 1
-    for p in (1e-30, 1e-10, 1e-7, 1e-3, 0.5, 1 - 1e-3, 1 - 1e-7):
+    # costs on probabilities close to 0 and 1 (and, for doubles, far below the machine epsilon)
+    for p in (1e-30, 1e-10, 1e-7, 1e-3, 0.5, 1 - 1e-3, 1 - 1e-7) + ((1e-300, 1e-100, 1e-17, 3e-16, 1e-15) if mode == "float" else (1e-38, 1e-9, 1e-8)):
         L = ["new o 1,2 %s" % vals_s([p, 1 - p if p < 0.5 else 1e-3], mode), "new t 1,2 %s" % vals_s([1.0, 0.0], mode),
-             "tracked o", "cost e xent o t", "backward e -", "grad o",
-             "cost f mse o t", "backward f -", "grad o"]
+             "tracked o", "cost e xent o t", "sumall e", "backward e -", "grad o",
+             "cost f mse o t", "sumall f", "backward f -", "grad o"]
         cases.append(Case(L, ("edgecost", p), ["cost", "edge"], mode))
+        # the same through a model: softmax output with a tiny probability under the target
+    # batches of softmax rows at very different levels (each row normalises on its own; exp stays finite)
+    lim = 700.0 if mode == "float" else 80.0
+    for hi in (lim, lim * 0.55, lim * 0.3, 30.0):
+        for lo in (-lim, -lim * 0.55, -30.0, 0.0):
+            rowsv = [hi, hi - 1.0, lo, lo - 1.0]
+            for dims in ([2, 2], [2, 1, 2]):
+                for order in (0, 1):
+                    v = rowsv if order == 0 else rowsv[2:] + rowsv[:2]
+                    L = ["new z %s %s" % (dims_s(dims), vals_s(v, mode)), "softmax p z", "sum q p 1"]
+                    cases.append(Case(L, ("edgesmb", hi, lo, tuple(dims), order), ["softmax", "batch", "edge"], mode))
+    if part == "cost":
+        cases = [c for c in cases if "cost" in c.tags or "xent" in c.tags]
+    elif part == "softmax":
+        cases = [c for c in cases if "softmax" in c.tags and "xent" not in c.tags]
     return cases
 
 
-FAMILIES.update({"scalar_edges": fam_scalar_edges})
+FAMILIES.update({"scalar_edges": fam_scalar_edges, "special": fam_special})
 
 AWKWARD = [5, 6, 7, 8, 9, 12, 13, 15, 16, 17, 20, 21, 23, 28, 31, 32, 33, 63, 64, 65]
 
